@@ -50,14 +50,17 @@ _MISSING = object()
 
 
 def _snapshot(a):
-    return (a.log_likelihood, a.log_prior, getattr(a, "_checkpoint_defaults", _MISSING))
+    d = getattr(a, "_checkpoint_defaults", _MISSING)
+    content = dict(d) if isinstance(d, dict) else d
+    return (a.log_likelihood, a.log_prior, d, content)
 
 
 def _same(s1, s2):
-    return s1[0] is s2[0] and s1[1] is s2[1] and s1[2] is s2[2]
+    # the identical objects, and the defaults dictionary with unchanged content
+    return s1[0] is s2[0] and s1[1] is s2[1] and s1[2] is s2[2] and s1[3] == s2[3]
 
 
-def _nest(a, prog, level, exc_pos, close_pool, par_prior, pools, ok):
+def _nest(a, prog, level, exc_pos, close_pool, par_prior, pools, ok, same_path=False):
     """Enter level `level` of the program, recurse, leave; record violations."""
     if exc_pos == level:
         raise _Boom()
@@ -78,23 +81,23 @@ def _nest(a, prog, level, exc_pos, close_pool, par_prior, pools, ok):
                     ok.append(False)
                 if (not par_prior) and a.log_prior is not before[1]:
                     ok.append(False)
-                _nest(a, prog, level + 1, exc_pos, close_pool, par_prior, pools, ok)
+                _nest(a, prog, level + 1, exc_pos, close_pool, par_prior, pools, ok, same_path)
         else:
-            path = "file%d.h5" % level
+            path = "outer.h5" if same_path else "file%d.h5" % level
             with a.auto_checkpoint(path, every=level + 1) as inst:
                 if inst is not a:
                     ok.append(False)
                 d = getattr(a, "_checkpoint_defaults", None)
                 if not (isinstance(d, dict) and d.get("path") == path and d.get("every") == level + 1):
                     ok.append(False)
-                _nest(a, prog, level + 1, exc_pos, close_pool, par_prior, pools, ok)
+                _nest(a, prog, level + 1, exc_pos, close_pool, par_prior, pools, ok, same_path)
     finally:
         after = _snapshot(a)
         if not _same(before, after):
             ok.append(False)
 
 
-def _drive(prog: List[int], exc_pos: int, close_pool: bool, par_prior: bool, preset_defaults: bool) -> bool:
+def _drive(prog: List[int], exc_pos: int, close_pool: bool, par_prior: bool, preset_defaults: bool, same_path: bool = False) -> bool:
     a = Aspire(log_likelihood=_ll, log_prior=_lp, dims=1)
     if preset_defaults:
         a._checkpoint_defaults = {"path": "outer.h5", "every": 7, "save_config": True, "save_flow": True, "saved_config": False, "saved_flow": False}
@@ -103,7 +106,7 @@ def _drive(prog: List[int], exc_pos: int, close_pool: bool, par_prior: bool, pre
     ok: List[bool] = []
     raised = False
     try:
-        _nest(a, prog, 0, exc_pos, close_pool, par_prior, pools, ok)
+        _nest(a, prog, 0, exc_pos, close_pool, par_prior, pools, ok, same_path)
     except _Boom:
         raised = True
     if raised != (0 <= exc_pos <= len(prog)):
@@ -117,24 +120,24 @@ def _drive(prog: List[int], exc_pos: int, close_pool: bool, par_prior: bool, pre
     return len(ok) == 0
 
 
-def _run(prog: List[int], exc_pos: int, close_pool: bool, par_prior: bool, preset_defaults: bool) -> bool:
+def _run(prog: List[int], exc_pos: int, close_pool: bool, par_prior: bool, preset_defaults: bool, same_path: bool) -> bool:
     """
     pre: len(prog) <= 3
     pre: all(0 <= k <= 1 for k in prog)
     pre: -1 <= exc_pos <= 3
     post: _ == True
     """
-    return _drive(prog, exc_pos, close_pool, par_prior, preset_defaults)
+    return _drive(prog, exc_pos, close_pool, par_prior, preset_defaults, same_path)
 
 
-def _run_deep(prog: List[int], exc_pos: int, close_pool: bool, par_prior: bool, preset_defaults: bool) -> bool:
+def _run_deep(prog: List[int], exc_pos: int, close_pool: bool, par_prior: bool, preset_defaults: bool, same_path: bool) -> bool:
     """
     pre: len(prog) == 4
     pre: all(0 <= k <= 1 for k in prog)
     pre: -1 <= exc_pos <= 4
     post: _ == True
     """
-    return _drive(prog, exc_pos, close_pool, par_prior, preset_defaults)
+    return _drive(prog, exc_pos, close_pool, par_prior, preset_defaults, same_path)
 
 
 def _twin(prog: List[int], exc_pos: int, close_pool: bool, par_prior: bool, preset_defaults: bool) -> bool:
